@@ -25,7 +25,7 @@ SPEC = dict(
                 'thorough': 'shape sets only (contents are sampled): all (row,inner,col) in [1,12]^3 for each of the four products (50 random '
                             'contents each); all (m,n) in [1,14]^2 for T2, eye2, tri2, diag2, triL2, triU2 and all n in [1,14] for T1, eye1, '
                             'tri1, diag, diag1, triL, triL1, triU, triU1 (50 contents each)'},
-    require=['call-spelled-with-house-style-identifiers-vs-function', 'const-operands-in-read-only-storage', 'diag2-at-extreme-dimensions', 'products-with-aliased-operands', 'products-with-overflowing-term-or-infinite-entry', 'products-with-one-large-dimension', 'rect-kernels-with-one-large-dimension', 'w-products-vs-definition', 'w-transposes-exact'] + [k + '-vs-definition' for k in _KERNELS] +
+    require=['products-with-zero-times-infinity', 'call-spelled-with-house-style-identifiers-vs-function', 'const-operands-in-read-only-storage', 'diag2-at-extreme-dimensions', 'products-with-aliased-operands', 'products-with-overflowing-term-or-infinite-entry', 'products-with-one-large-dimension', 'rect-kernels-with-one-large-dimension', 'w-products-vs-definition', 'w-transposes-exact'] + [k + '-vs-definition' for k in _KERNELS] +
             ['result-cells-compared-bitwise', 'guard-bands-intact', 'inputs-unchanged', 'T1oT1-identity', 'T1-eq-T2-on-square',
              'T2oT2-identity', 'exhaustive-product-shape-cases', 'exhaustive-rect-shape-cases', 'random-product-batches',
              'random-rect-batches'],
